@@ -267,6 +267,6 @@ func init() {
 			"URI = class base path concatenated with the method path, literally",
 			"each case from pristine state; cross-file history is C07 (but multi-class projects here also exercise file order)",
 		},
-		Sections: []engine.Section{{Name: "controllers", KQuick: 3, KThor: 4, Gen: c12Gen}},
+		Sections: []engine.Section{{Name: "controllers", KQuick: 3, KThor: 4, Gen: c12Gen}, {Name: "through-coca-api", KQuick: 1, KThor: 2, Gen: cliApiGen}},
 	})
 }
